@@ -47,6 +47,19 @@ def run(ctx):
                   f'Importer.run, so for such a cell (e.g. an empty one) the import fails instead of reporting one error' if raises_ else '')
     ctx.expect_count('R4', 'constructors in the chain of ErrorToken', n_inits, 3)
     shared.whole_cell_consumption(ctx, 'R5')
+    # the spines whose cells are notes (**kern, **root) report a malformed cell: their import_token lets the error out (the catch-all
+    # with a verbatim token belongs to the free-text spines, C18)
+    for qn_ in (f'{N.KERN_IMP}.KernSpineImporter', 'kernpy.core.root_spine_importer.RootSpineImporter'):
+        ci_ = ctx.prog.cls(qn_)
+        f_ = ci_.methods.get('import_token')
+        if f_ is None:
+            raise AnalysisError(f'anchor vanished: {qn_}.import_token')
+        swallow = [h_ for t_ in walk_local(f_.node) if isinstance(t_, ast.Try) for h_ in t_.handlers
+                   if (h_.type is None or src(h_.type) in ('Exception', 'BaseException')) and not any(isinstance(x_, ast.Raise) for x_ in ast.walk(h_))]
+        ctx.check(not swallow, 'R3', f_.loc, f_.qualname, f'note-spine-importer-swallows-errors:{ci_.name}',
+                  f'{ci_.name}.import_token lets a parse error out (the importer reports it once, with its line)',
+                  f'{ci_.name}.import_token catches every exception and returns a token: a malformed cell of that spine is no longer reported '
+                  f'(no ErrorToken, no entry in the error list)' if swallow else '')
     # every occurrence of a cell is parsed (and, when malformed, reported) on its own; a malformed cell is never a null cell
     from . import c18
     from .exporter_facts import check_nullish_tables
